@@ -45,6 +45,9 @@ def run(ctx):
     rep.rule("C18.R4", "one scalar prox parameter per vector-valued friction law (Coulomb direction)", 4)
     rep.rule("C18.R3", "active-set restriction of velocity-level normal percussions", 3)
     rep.rule("C18.R5", "local normal/friction connectivity of the active set (index typing in compute_I_F)", 4)
+    rep.rule("C18.R13", "DualStormerVerlet: the fixed point that couples the friction projection to the slip of the NEW velocity runs to convergence of ALL iterated quantities - its helpers compare iterates the (in-place) map cannot overwrite, else only the re-allocated normal percussions are compared and friction is projected once against the old slip (= C22.R5 on the same helpers)", 2)
+    from .c22 import r5_isolation
+    r5_isolation(ctx, "C18.R13")
     rep.rule("C18.R12", "Moreau applies Coulomb's law to xi_F = W_F.T u + ...: the friction force directions W_F = gamma_F_u.T of the contact elements carry exactly the factors of the slip gamma_F (Leibniz support, K10) and read no datum it does not read (K13) - otherwise Moreau projects a fictitious slip while the gamma_F-based schemes project the true one", 4)
     friction_direction_is_slip_jacobian(ctx)
     rep.rule("C18.R11", "RATTLE: the active set of stage 2 is the set on which stage 1's normal projection is active, decided from the SAME argument the stage-1 prox projects (so a contact that carries a stage-1 percussion is in it by construction, whatever gap residual the stage-1 iteration left)", 1)
@@ -689,4 +692,9 @@ MUTANTS += [
 MUTANTS += [
     dict(id="c18-r11-seed", canary=True, what="[seeded by sub-agent] Rattle.prox1 decides the stage-2 active set by Moreau's closed-contact test on the gap instead of the sign of the stage-1 prox argument", file='cardillo/solver/rattle.py',
          old="        self.I_N = prox_arg <= 0  # active set for second stage\n", new="        self.I_N = np.logical_or(g_N <= 0, np.isclose(g_N, np.zeros(self.nla_N), atol=1e-8))\n", expect="C18.R11"),
+]
+
+MUTANTS += [
+    dict(id="c18-r13-seed", canary=True, what="[seeded by sub-agent] fixed_point_iteration hands the live iterate to the in-place map and keeps no copy of the old one", file=DSV,
+         edits=[(DSV, "        x_new = fun(x.copy())\n", "        x_new = fun(x)\n"), (DSV, "        x = x_new.copy()\n    raise ValueError(\n        f\"Fixed-point", "        x = x_new\n    raise ValueError(\n        f\"Fixed-point")], expect="C18.R13"),
 ]
